@@ -151,8 +151,9 @@ def xyz_declared_counts(text: str, nframes: int):
 
 
 def mol2_line_roles(text: str):
-    """role of every line of an UNdamaged mol2 text by an independent scan: 'atom' / 'bond' for the lines between an
-    ATOM / BOND tag and the next tag, 'header' for the four lines after a MOLECULE tag, 'other' otherwise"""
+    """role of every line of an UNdamaged mol2 text by an independent scan: 'atom' / 'bond' / 'atom-attribute' /
+    'bond-attribute' for the lines between an ATOM / BOND / UNITY_ATOM_ATTR / UNITY_BOND_ATTR tag and the next tag (the
+    record kinds the reader interprets), 'header' for the four lines after a MOLECULE tag, 'other' otherwise"""
     lines = text.split("\n")
     roles, cur, hdr = [], "other", 0
     for l in lines:
@@ -164,7 +165,8 @@ def mol2_line_roles(text: str):
         if t.startswith("@<TRIPOS>"):
             m = re.match(r"@<TRIPOS>([A-Z_]+)", t)
             tag = m.group(1) if m else ""
-            cur = {"ATOM": "atom", "BOND": "bond"}.get(tag, "other")
+            cur = {"ATOM": "atom", "BOND": "bond", "UNITY_ATOM_ATTR": "atom-attribute",
+                   "UNITY_BOND_ATTR": "bond-attribute"}.get(tag, "other")
             if tag == "MOLECULE":
                 hdr = 4
             roles.append("tag")
@@ -238,6 +240,10 @@ def gen_structured_mol2(rng, en, ml, max_atoms: int):
             k = rng.range(1, na)
             sections[0] = sections[0] + rng.choice([["@<TRIPOS>UNITY_ATOM_ATTR", f"{k} 1", "charge 1"],
                                                      ["@<TRIPOS>UNITY_ATOM_ATTR", f"{k} 2", "charge -1", "foo bar"]])
+        if nb >= 1 and rng.chance(1, 5):
+            k = rng.range(1, nb)
+            sections[1] = sections[1] + rng.choice([["@<TRIPOS>UNITY_BOND_ATTR", f"{k} 1", "order 1.5"],
+                                                     ["@<TRIPOS>UNITY_BOND_ATTR", f"{k} 1", "a b", f"{nb} 2", "c d", "e f"]])
         if rng.chance(1, 6):
             sections.reverse()
         if rng.chance(1, 12):
@@ -351,9 +357,17 @@ def run(ctx):
                 # (foreign layout: ATOM section last) whose shortened type / charge token is still valid — the mol2
                 # twin of D22; a bond line's type token has no acceptable proper prefix (theorem)
                 k = "C10:mol2-cut-inside-last-atom-record" if in_last_token else "C10:truncated-mol2-partial"
+                # a cut exactly in front of an OPTIONAL trailing attribute section (UNITY_ATOM_ATTR / UNITY_BOND_ATTR
+                # after the last record section) leaves a text that is indistinguishable from a file that never had the
+                # section: the molecule comes back complete in atoms and bonds, without those attributes (inherent)
+                nxt = base_text[cut:].split("\n", 1)[0].strip() if kind == "cut-line" and cut is not None else ""
+                if (nxt.startswith("@<TRIPOS>UNITY_ATOM_ATTR") or nxt.startswith("@<TRIPOS>UNITY_BOND_ATTR")) and \
+                        len(impl) <= len(base_mols) and tl.mols_equal(impl, base_mols[: len(impl)], extras=False):
+                    k = "C10:mol2-cut-before-attribute-section"
                 ctx.violation(k, f"{kind} of {base_name} at {cut}: returned molecules are not a prefix of the undamaged file's molecules", replay)
-        # (4) a duplicated / deleted ATOM or BOND record shifts the count-driven section: if the text is accepted at
-        #     all, the molecules must still be those of the undamaged file
+        # (4) a duplicated / deleted record (ATOM, BOND, UNITY attribute) shifts the count-driven section: if the text
+        #     is accepted at all, the molecules must still be those of the undamaged file — in EVERY field the reader
+        #     fills (types, labels, coordinates, charges, formal charges, atom and bond attributes, bonds)
         if record is not None and base_mols != "err" and not tl.mols_equal(impl, base_mols):
             ctx.violation("C10:damaged-record-accepted",
                           f"{kind} of {base_name}: {record} record line {cut}: the text was accepted and a molecule differs from the undamaged file's", replay)
@@ -440,7 +454,7 @@ def run(ctx):
         if len(idx) > 150:
             idx = sorted(set(rng.choice(idx) for _ in range(100)))
         for i in idx:
-            rec = roles[i] if roles[i] in ("atom", "bond") else None
+            rec = roles[i] if roles[i] in ("atom", "bond", "atom-attribute", "bond-attribute") else None
             case_mol2(name, text, base, "dup-each", "\n".join(lines[:i] + [lines[i]] + lines[i:]), cut=i, record=rec)
             case_mol2(name, text, base, "del-each", "\n".join(lines[:i] + lines[i + 1:]), cut=i, record=rec)
         for _ in range(n_mut):
